@@ -120,6 +120,9 @@ fn c13_pairs<F: Fam>(ctx: &Ctx) -> u64 {
         b"mqtt".to_vec(),
         b"MQISDP".to_vec(),
         b"MQTT\0".to_vec(),
+        b"MQIsdpX".to_vec(),
+        b"MQTTMQTT".to_vec(),
+        vec![b'M'; 300],
         vec![0xFF, 0xFE],
         vec![b'M', b'Q', 0xC3],
     ];
